@@ -378,3 +378,65 @@ pub fn int_tuple(a: &Ans) -> Option<Vec<isize>> {
         })
         .collect()
 }
+
+
+/// WELL-FORMEDNESS OF A FINITE-DOMAIN PROGRAM ("every FD operand given a domain before labelling", as the generators guarantee): on every
+/// path (one clause per disjunction) that contains a finite-domain goal, every variable that is an operand of an FD constraint and
+/// every query variable has an `infd` on that path or occurs in an `==` of that path.  A shrunk or replayed case line that lost a
+/// domain is OUTSIDE the FD properties (the real code panics with `unbound-domain` or reports a `_` variable for it on any tree):
+/// the oracles do not judge it, so the shrinker cannot leave the property's domain.
+pub fn fd_well_formed(p: &Prog) -> bool {
+    fn paths<'a>(gs: &'a [PG], acc: Vec<Vec<&'a PG>>) -> Vec<Vec<&'a PG>> {
+        let mut cur = acc;
+        for g in gs {
+            if cur.len() > 512 {
+                return cur;
+            }
+            cur = match g {
+                PG::Conj(b) => paths(b, cur),
+                PG::Fresh(b) => paths(std::slice::from_ref(&**b), cur),
+                PG::Conde(cs) => {
+                    let mut next = vec![];
+                    for c in cs {
+                        next.extend(paths(c, cur.clone()));
+                    }
+                    next
+                }
+                PG::Disj(cs) => {
+                    let mut next = vec![];
+                    for c in cs {
+                        next.extend(paths(std::slice::from_ref(c), cur.clone()));
+                    }
+                    next
+                }
+                atom => cur.into_iter().map(|mut v| { v.push(atom); v }).collect(),
+            };
+        }
+        cur
+    }
+    let all = paths(&p.body, vec![vec![]]);
+    let mut any_fd = false;
+    for path in &all {
+        let mut dom: Vec<usize> = vec![];
+        let mut req: Vec<usize> = vec![];
+        let mut fd = false;
+        for a in path {
+            match a {
+                PG::InFd(x, _) => { fd = true; x.vars(&mut dom); }
+                PG::Eq(x, y) => { x.vars(&mut dom); y.vars(&mut dom); }
+                PG::PlusFd(x, y, z) | PG::MinusFd(x, y, z) | PG::TimesFd(x, y, z) => { fd = true; x.vars(&mut req); y.vars(&mut req); z.vars(&mut req); }
+                PG::LteFd(x, y) | PG::LtFd(x, y) | PG::DiseqFd(x, y) => { fd = true; x.vars(&mut req); y.vars(&mut req); }
+                PG::DistinctFd(l) => { fd = true; l.vars(&mut req); }
+                _ => {}
+            }
+        }
+        if fd {
+            any_fd = true;
+            req.extend(0..p.nq);
+            if req.iter().any(|v| !dom.contains(v)) {
+                return false;
+            }
+        }
+    }
+    any_fd
+}
